@@ -340,3 +340,17 @@ def resolved(func_node, expr, depth=3):
         expr = defs[0]
         depth -= 1
     return expr
+
+
+def sibling_verdict(rep, rule, key, where, diff, bad_msg, ok_detail, small=2):
+    """Verdict of a statement-shape comparison between two copies of one algorithm.  A difference of at most `small` lines on either side
+    is a local edit of one copy (reported); a larger one means that one copy was restructured (vectorised, split into helpers): the shapes
+    can no longer be lined up and nothing is decided — a restructuring is not by itself a behavioural difference."""
+    minus = [l for l in diff if l.startswith("-")]
+    plus = [l for l in diff if l.startswith("+")]
+    if not diff:
+        rep.ok(rule, key, where, ok_detail)
+    elif max(len(minus), len(plus)) <= small:
+        rep.bad(rule, key, where, bad_msg)
+    else:
+        rep.unknown(rule, key, where, "one copy was restructured (%d / %d differing lines): the statement shapes cannot be lined up, nothing decided" % (len(minus), len(plus)))
